@@ -106,11 +106,9 @@ def run (j : Json) : Except String Json := do
   let ops := match tokenize path with
     | .ok ops => ofList opJson ops
     | .error e => obj [("error", Json.str (errStr e))]
-  -- "as_segments": "tuple" | "list" — the path was handed to find() as that kind of iterable
-  let segKind := (str (fldD j "as_segments" (Json.str ""))).toOption.getD ""
-  let nseg := (path.splitOn '/').length
-  let fmtOK := !(segKind == "tuple" && nseg != 1)
-  let res := findWith fmtOK root start path single strict
+  -- "as_segments": the path was handed to find() as a tuple/list of segments; pathexpr joins
+  -- it with "/", and the error message is formatted with `% (path,)`, so nothing else changes
+  let res := find root start path single strict
   let mut out := [("ops", ops), ("result", resJson tbl res)]
   -- spec B on the AST the path was printed from (when the case carries one)
   match j.getObjVal? "ast" with
